@@ -19,6 +19,7 @@ type Group struct {
 	oh     objHash
 	mu     sync.Mutex // free mode only
 	sem    byte
+	limit  int
 }
 
 //go:norace
@@ -81,10 +82,37 @@ func (g *Group) Go(f func() error) {
 	if S.aborting {
 		return
 	}
-	g.o.vis()
+	if vis := g.o.vis(); g.limit > 0 && (vis || g.n >= g.limit) {
+		// SetLimit: Go blocks until a running function of the group has returned
+		yield(&Op{Kind: OpEgSlot, g: g}, "eg.go")
+		raceAcquire(unsafe.Pointer(&g.sem))
+	}
 	g.n++
 	c := &egChild{g: g, f: f}
 	Go(c.run)
+}
+
+// TryGo starts f only if the group's limit allows it now.
+//
+//go:norace
+func (g *Group) TryGo(f func() error) bool {
+	if S == nil {
+		return g.real.TryGo(f)
+	}
+	if S.aborting {
+		return false
+	}
+	if g.o.vis() {
+		Yield("eg.trygo")
+	}
+	g.oh.touchW(53)
+	if g.limit > 0 && g.n >= g.limit {
+		return false
+	}
+	g.n++
+	c := &egChild{g: g, f: f}
+	Go(c.run)
+	return true
 }
 
 //go:norace
@@ -111,8 +139,8 @@ func (g *Group) Wait() error {
 }
 
 func (g *Group) SetLimit(n int) {
-	if S != nil {
-		panic("vsched: errgroup.SetLimit is not modelled")
+	g.limit = n
+	if S == nil {
+		g.real.SetLimit(n)
 	}
-	g.real.SetLimit(n)
 }
